@@ -176,7 +176,12 @@ def sig(rng, op, twins):
             a = rng.randint(-5, 5); return [["n", a], ["n", a + rng.randint(-2, 8)]]
         if r < 0.8:
             b = rng.choice([V.INT_MAX, V.INT_MAX - 1, V.INT_MIN + 3]); return [["n", b - rng.randint(0, 3)], ["n", b]]
-        return [["n", rng.randint(-3, 3)], I()] if rng.random() < 0.5 else [g_small(rng), g_small(rng)]
+        if rng.random() < 0.5:
+            # one boundary operand, but never an enumeration of more than a few thousand integers
+            b = I()
+            a = ["n", max(V.INT_MIN, min(V.INT_MAX, b[1] + rng.choice([-2000, -5, -1, 0, 1, 3, 2000])))]
+            return [a, b] if rng.random() < 0.7 else [b, a]
+        return [g_small(rng), g_small(rng)]
     if op in ("In", "NotIn"):
         s = st()
         if s[1] and rng.random() < 0.6:
@@ -324,6 +329,13 @@ REF_GOISH_TWINS = S.Sem(ident=False, strict_eq=True, strings_are_seqs=True, asse
 REF_LAX_EQ = S.Sem(ident=True, strict_eq=False)
 
 
+def infeasible(case):
+    a = case["args"]
+    if case["op"] == "DotDot" and len(a) == 2 and a[0][0] == "n" and a[1][0] == "n" and a[1][1] - a[0][1] > 2000000:
+        return True
+    return False
+
+
 def kinds(args):
     return "/".join(a[0] for a in args)
 
@@ -339,6 +351,10 @@ def classify(case, res):
     except RecursionError:
         spec = ("unknown", "recursion")
     rc = spec[0] + ">" + out
+    if infeasible(case):
+        # a result with millions of members cannot be enumerated within the harness deadline / heap cap:
+        # running out of time or memory on it is not the non-termination the property forbids
+        return "skip", None, None, "infeasible>" + out
     if out == "hang":
         return "fail", "hang:%s" % op, "%s did not return (%s)" % (op, res.get("detail")), rc
     if out == "panic":
@@ -409,7 +425,7 @@ def shape(v):
 
 def run(ctx):
     rng = ctx.rng
-    per_op = 40 if ctx.tier == "quick" else 1500
+    per_op = 32 if ctx.tier == "quick" else 1200
     if ctx.replay:
         rp = json.load(open(ctx.replay))
         cases = [rp["case"]] if rp.get("case") else corpus()
@@ -535,5 +551,5 @@ MANIFEST = {
              "partial with refutation witnesses for = # (incomparable kinds; tuple vs 1..n-function), Len and \\o on strings; record sets, function sets and EXCEPT are "
              "covered by the tie and the oracle only; Seq and SelectSeq are known findings."),
     "level_note": ("11 defects of the pinned tree repaired by fix: commits (overflow of + - * unary-, ^ with bad exponents, .. at MaxInt32, \\div, %, SUBSET, UNION, Assert); "
-                   "6 known findings with mechanically classified signatures. The tie is differential testing (2300 quick / 87000 thorough calls, 13 seeded mutations all caught)."),
+                   "6 known findings with mechanically classified signatures. The tie is differential testing (1900 quick / 70000 thorough calls, 13 seeded mutations all caught)."),
 }
